@@ -474,6 +474,28 @@ func c20Gen(t *rapid.T) c20Case {
 			muts = append(muts, "cookies")
 		}
 	}
+	// a content-length in the trailers is only generated together with a wrong declared length (where the request
+	// is malformed whatever the trailers say); if a later mutation made the declared length right again, the
+	// trailer field goes: how a well-formed request's own content-length and one in its trailers are shown to the
+	// handler is fasthttp's business, not part of the comparison
+	declaredRight := true
+	for _, f := range reg {
+		if f.F.Name == "content-length" {
+			n, ok := new(big.Int).SetString(f.F.Value, 10)
+			if !ok || strings.ContainsAny(f.F.Value, "+- ") || n.Cmp(big.NewInt(int64(c.BodyLen))) != 0 {
+				declaredRight = false
+			}
+		}
+	}
+	if declaredRight {
+		var nt []peer.FieldSpec
+		for _, f := range c.Trailers {
+			if f.F.Name != "content-length" {
+				nt = append(nt, f)
+			}
+		}
+		c.Trailers = nt
+	}
 	c.Mut = strings.Join(muts, "+")
 	c.List = append(ps, reg...)
 	for i := range c.List {
